@@ -955,7 +955,9 @@ class URL:
                 return from_parts(self._scheme, self._netloc, path, "", "")
             return self
         parts = path.split("/")
-        return from_parts(self._scheme, self._netloc, "/".join(parts[:-1]), "", "")
+        # the parent of a rooted single-segment path is the root, not the empty path
+        parent_path = "/".join(parts[:-1]) or ("/" if path[0] == "/" and not self._netloc else "")
+        return from_parts(self._scheme, self._netloc, parent_path, "", "")
 
     @cached_property
     def raw_name(self) -> str:
